@@ -229,3 +229,24 @@ pub fn syntax(cex: &Value) -> Result<String, String> {
     }
   }
 }
+
+
+/// Diagnostic: raw behaviour of parse / setters on given strings (never used to confirm a candidate).
+pub fn probe(cex: &Value) -> Result<String, String> {
+  let mut out = Vec::new();
+  for s in cex.get("inputs").and_then(Value::as_array).cloned().unwrap_or_default() {
+    let s = s.as_str().unwrap_or("").to_owned();
+    let s2 = s.clone();
+    let r = no_panic(move || {
+      let d = CoreDID::parse(&s2).map(|d| format!("{:?}/{:?}", d.method(), d.method_id())).map_err(|e| e.to_string());
+      let u = DIDUrl::parse(&s2).map(|u| format!("{} q={:?} f={:?}", u, u.query(), u.fragment())).map_err(|e| e.to_string());
+      let mut c = CoreDID::parse("did:a:b").unwrap();
+      let sid = c.set_method_id(&s2).map(|_| c.to_string()).map_err(|e| e.to_string());
+      let mut c = CoreDID::parse("did:a:b").unwrap();
+      let sn = c.set_method_name(&s2).map(|_| c.to_string()).map_err(|e| e.to_string());
+      format!("did={d:?} url={u:?} set_id={sid:?} set_name={sn:?}")
+    });
+    out.push(format!("{s:?}: {r:?}"));
+  }
+  Err(out.join("\n"))
+}
